@@ -76,7 +76,7 @@ class C09(Spec):
 
     # ---- cases ------------------------------------------------------------------------
     def gen_cases(self, rng, tier):
-        per = 120 if tier == 'quick' else 2500
+        per = 600 if tier == 'quick' else 4000
         for top in TOPS:
             for _ in range(per):
                 fs = rng.choice(S.FS_LIST)
